@@ -534,6 +534,13 @@ func matchKnown(c Case, err error) string {
 		return ""
 	}
 	in := c.bytes()
+	// data:base64,xxxx - base64 without the semicolon is no encoding marker, the dependency decodes the payload anyway
+	if i := bytes.IndexByte(in, ','); i > 5 && strings.HasPrefix(err.Error(), "payload changed") {
+		h := strings.ToLower(strings.TrimSpace(string(in[5:i])))
+		if h == "base64" {
+			return "C18-base64-without-semicolon"
+		}
+	}
 	d, _, ok := decodeDataURI(in)
 	if ok && !d.base64 && bytes.IndexByte(in[bytes.IndexByte(in, ',')+1:], '+') >= 0 && strings.HasPrefix(err.Error(), "payload changed") {
 		return "C18-plus-decoded-as-space"
